@@ -204,14 +204,32 @@ def run_property(mod, tier, seed, verbose=False):
         rng = random.Random((seed, prop_id, st.name).__repr__())
         st.setup()
         try:
-            cases = load_corpus(prop_id, st) + list(st.gen(tier, rng))
-            observed = []
-            cov.start()
+            # A stream that cannot drive the implementation at all (the code was restructured under the harness: private
+            # attribute gone, exploration budget blown by new yield points, ...) must not crash the check: the tie between
+            # model and code is then NOT established, which is reported as such (no-failing-input-found) unless another
+            # stream exhibits a failing input.
             try:
-                for c in cases:
-                    observed.append(st.run_impl(c))
-            finally:
-                cov.stop()
+                cases = load_corpus(prop_id, st) + list(st.gen(tier, rng))
+                observed = []
+                cov.start()
+                try:
+                    for c in cases:
+                        observed.append(st.run_impl(c))
+                        if getattr(st, "fatal", None) and st.fatal(c, observed[-1]):
+                            # the implementation left something behind that makes further runs in this process meaningless
+                            # (threads spinning or blocked for ever): what was observed so far is judged, the rest is dropped
+                            cases = cases[:len(observed)]
+                            break
+                finally:
+                    cov.stop()
+            except Exception as ex:      # noqa
+                import traceback
+                no_input_found.append(("corr:%s:%s (the harness could not drive the implementation)" % (prop_id, st.name),
+                                       "%s: %s | %s" % (type(ex).__name__, ex, traceback.format_exc().strip().splitlines()[-3:])))
+                per_stream[st.name] = {"cases": 0, "in_model_domain": 0, "nontrivial_distinct": 0, "error": type(ex).__name__}
+                continue
+            for pb in getattr(st, "problems", []) or []:
+                no_input_found.append(("corr:%s:%s" % (prop_id, st.name), pb))
             encoded, enc_idx = [], []
             n_nontriv = 0
             for i, (c, o) in enumerate(zip(cases, observed)):
